@@ -613,6 +613,14 @@ let exec (s : t) (verbose : bool) (f : string array) (obs : string option) : str
        Printf.sprintf "%d %s" (List.length h.hf_recs) (md5hex (Buffer.contents b))
      | Some { m_marker = Some _; m_hint = None; _ } -> "nohint"
      | _ -> "none")
+  | "shardcount" ->
+    (* the request may exceed OCaml's int: parsed as a Coq integer *)
+    let a = f.(2) in
+    let zv = if String.length a > 0 && a.[0] = '-'
+      then (match z_of_n (n_of_string (String.sub a 1 (String.length a - 1))) with Zpos p -> Zneg p | z -> z)
+      else z_of_n (n_of_string a) in
+    Printf.sprintf "ok %d" (int_of_z (next_power_of_two zv))
+  | "shards" -> Printf.sprintf "ok %d" (Iter_driver.next_pow2 !Iter_driver.shards)
   | op when String.length op >= 2 && String.sub op 0 2 = "it" ->
     Iter_driver.exec (fun () -> get_db s) (fun d -> s.db <- Some d) (fun () -> s.iter) (fun i -> s.iter <- i) f
   | op -> "err unknown-op-" ^ op
